@@ -151,12 +151,6 @@ func (p *HTTPProxy) ServeHTTP(w http.ResponseWriter, r *http.Request) {
 		targetURL.RawQuery = t.URL.RawQuery + "&" + r.URL.RawQuery
 	}
 
-	if t.Host == "dst" {
-		r.Host = targetURL.Host
-	} else if t.Host != "" {
-		r.Host = t.Host
-	}
-
 	// TODO(fs): The HasPrefix check seems redundant since the lookup function should
 	// TODO(fs): have found the target based on the prefix but there may be other
 	// TODO(fs): matchers which may have different rules. I'll keep this for
@@ -182,6 +176,14 @@ func (p *HTTPProxy) ServeHTTP(w http.ResponseWriter, r *http.Request) {
 	if err := addHeaders(r, p.Config, t.StripPath); err != nil {
 		http.Error(w, "cannot parse "+r.RemoteAddr, http.StatusInternalServerError)
 		return
+	}
+
+	// rewrite the Host header only after the forwarding headers have been
+	// derived from the host the client asked for
+	if t.Host == "dst" {
+		r.Host = targetURL.Host
+	} else if t.Host != "" {
+		r.Host = t.Host
 	}
 
 	if err := addResponseHeaders(w, r, p.Config); err != nil {
